@@ -36,7 +36,11 @@ def cases(seed, tier):
 
 
 def _rows_equal(a, b):
-    return a["value"] == b["value"] and a["choices"] == b["choices"] and a["states"] == b["states"]
+    # choices are grid values: exact; value and states: exact up to the inexact-case guard of the exact stream
+    from common import close_floats
+
+    return (a["choices"] == b["choices"] and close_floats([a["value"]], [b["value"]])
+            and list(a["states"]) == list(b["states"]) and close_floats(list(a["states"].values()), list(b["states"].values())))
 
 
 def run_case(case):
